@@ -106,7 +106,7 @@ def handleC19 (cmd : String) (args : List Sexp) : Option Sexp :=
       | .ok (tops, bout) =>
         let rout := bout.length
         if o < -((rout : Int) + 1) || o > (rout : Int) then pure (.list [.atom "err", .atom "out_dim"]) else
-        let res := vmapTD tops i' (normOutDim o rout) 1 td
+        let res := vmapTDT tops i' (normOutDim o rout) 1 td      -- = vmapTD for a non-empty vmapped dim (theorem removeBDT_eq_removeBD)
         -- a trailing `deepen` re-declares the nested node `n` of the per-sample output with batch size bout ++ [1]
         let nodes := if C19D.endsWithDeepen ops && res.leaves.any (fun p => p.1 == "n.x")
           then [("n", removeBDNode (normOutDim o rout) (td.batch.getD i' 0) (bout ++ [1]))] else []
@@ -145,6 +145,38 @@ def handleC19 (cmd : String) (args : List Sexp) : Option Sexp :=
           if size = 0 || o < -((rout : Int) + 1) || o > (rout : Int) then pure (.list [.atom "err", .atom "out_dim"]) else
           pure (C19D.tdToSexp (vmapTD2 opAdd2 tops j1 j2 (normOutDim o rout) size 1 ta tb))
       | _, _ => pure (.list [.atom "err", .atom "in_dim"])
+  | "c19.vmap_linear", [bsz, nout, nin, pin, xin, o] => do
+      -- functional Linear call under vmap: parameters stacked along `pin` of a rank-1 parameter batch [B] (or `none`: shared
+      -- parameters), input x vmapped along `xin` (or `none`); weights / bias / x are provenance tensors
+      let B ← asNat? bsz
+      let nout ← asNat? nout
+      let nin ← asNat? nin
+      let pin ← asOptInt? pin
+      let xin ← asOptInt? xin
+      let o ← asInt? o
+      let params : TD := match pin with
+        | some _ => ⟨[B], [none], [("weight", arangeT 1 [B, nout, nin]), ("bias", arangeT 100 [B, nout])]⟩
+        | none => ⟨[], [], [("weight", arangeT 1 [nout, nin]), ("bias", arangeT 100 [nout])]⟩
+      -- x as a tensordict with one entry whose batch is the vmapped dim (if any)
+      let xshape : Shape := match xin with
+        | some d => if d = 0 || d = -2 then [B, nin] else [nin, B]
+        | none => [nin]
+      let xd : Option Nat := xin.map (fun d => if d = 0 || d = -2 then 0 else 1)
+      -- bring x to the form batch ++ [nin]: a vmapped dim 1 is a transposed provenance tensor
+      let xt : T := match xd with
+        | some 1 => ⟨[B, nin], fun c => (arangeT 1000 xshape).get [c.getD 1 0, c.getD 0 0]⟩
+        | _ => arangeT 1000 xshape
+      let xtd : TD := match xd with
+        | some _ => ⟨[B], [none], [("x", xt)]⟩
+        | none => ⟨[], [], [("x", xt)]⟩
+      let j1 : Option Nat := pin.map (fun _ => 0)
+      let j2 : Option Nat := xd.map (fun _ => 0)
+      if j1.isNone && j2.isNone then pure (.list [.atom "err", .atom "in_dim"]) else
+      if o < -2 || o > 1 then pure (.list [.atom "err", .atom "out_dim"]) else
+      let res := vmapTD2 opLinear [] j1 j2 (normOutDim o 1) B 1 params xtd
+      match res.leaves.lookup "y" with
+      | some y => pure (.list [ofNats y.shape, ofInts y.toList])
+      | none => pure (.list [.atom "err", .atom "op"])
   | "c19.vmap_lazy", [td, sd, i, o, .list (.atom "prog" :: ops)] => do
       -- the lazy-stack code path: the tensordict is stacked lazily along `sd`; only member-wise (element-wise) programs
       let td ← C19D.tdOf? td
